@@ -55,12 +55,27 @@ pub fn request_view(req: &[u8]) -> Option<(u16, Vec<Q>)> {
 
 /// Flip the case of exactly one ASCII letter (the first one found) of a name.
 pub fn flip_one_letter(name: &Labels) -> Labels {
+    flip_nth_letter(name, 0)
+}
+
+/// Flip the case of the n-th ASCII letter of a name (n counted from 0; the last letter if the
+/// name has fewer).
+pub fn flip_nth_letter(name: &Labels, n: usize) -> Labels {
     let mut out = name.clone();
+    let letters = out.iter().flat_map(|l| l.iter()).filter(|c| c.is_ascii_alphabetic()).count();
+    if letters == 0 {
+        return out;
+    }
+    let target = n.min(letters - 1);
+    let mut seen = 0;
     'outer: for l in out.iter_mut() {
         for c in l.iter_mut() {
             if c.is_ascii_alphabetic() {
-                *c ^= 0x20;
-                break 'outer;
+                if seen == target {
+                    *c ^= 0x20;
+                    break 'outer;
+                }
+                seen += 1;
             }
         }
     }
